@@ -33,22 +33,26 @@ META = {
     "technique": "Lean 4 theorems by induction over operation histories with a cache invariant + differential "
     "correspondence on real files (explicit st_mtime_ns, real PYDRA_HASH_CACHE directory, real processes)",
     "text": "Lean theorems over histories of any length, any number of sessions/processes, with clean-ups, for the "
-    "algorithm of pydra/utils/hash.py (key = class, path, st_mtime_ns; look-up order memory, disk, calculate): "
+    "algorithm of pydra/utils/hash.py (file-set = class + any number of member paths; key = class, member paths, every "
+    "member's st_mtime_ns in the same order; look-up order memory, disk, calculate): "
     "C09_partial — on every MtimeFresh history each hash returns the digest of the current content (any digest "
     "function, no injectivity assumed); C09_exact — MtimeFresh is exactly the class of histories on which the code is "
     "right (a non-fresh history has a prefix after which one more hash is answered wrongly); C09_witness/C09_not_full "
     "— the full property is false for this algorithm (D7); C09_multiproc — dropping an in-memory dict never changes "
-    "a later answer unless a clean-up intervened (C09_cleanup_witness).  The model is tied to the code by running the "
+    "a later answer unless a clean-up intervened (C09_cleanup_witness); C09_any_member_in_key / C09_key_*_refuted — every "
+    "member's own mtime is in the key, and max / sum / first-only / unordered keys are refuted by witness.  The model is tied to the code by running the "
     "same histories on real files.",
     "note": "Trusted: Lean kernel; hand-written model of get_or_calculate_hash / hash_single key construction / clean_up; "
-    "POSIX file-system contract (sampled after every step); generator reach.  Single-path file-sets only (File, "
-    "BinaryFile, Directory with one inner file); symlinks and multi-file file-sets are outside the generator.",
-    "rule": "case = history (≤ 8 ops quick, ≤ 12 thorough; thorough adds all histories of length ≤ 3 over a 23-letter "
+    "POSIX file-system contract (sampled after every step); generator reach.  File-sets exercised: File, BinaryFile, "
+    "Directory (one inner file), SetOf[File] with 2-3 members, fileformats.testing.ImageWithHeader (header + data), "
+    "fileformats.testing.Xyz (three members), bare FileSet with two members; symlinks are outside the generator.",
+    "rule": "case = history (≤ 8 ops quick, ≤ 12 thorough; plus a created-and-hashed two-member set followed by every 1 (quick) / 2 "
+    "(thorough) letters of a 31-letter alphabet and three more hashes; thorough adds all histories of length ≤ 3 over a 25-letter "
     "alphabet); distinct by canonical JSON of (mode, ops); non-trivial = at least two hash operations on existing "
     "files with a file operation somewhere before the last of them",
     "assumptions": [
         "the digest function is an arbitrary function of (class, content): theorems do not use any property of BLAKE2b",
-        "file-set = one top-level path; the key's mtime is lstat(path).st_mtime_ns of that path",
+        "file-set = class + list of top-level member paths (sorted(fspaths)); the key holds lstat(p).st_mtime_ns of every member, in that order",
         "operations are sequential (concurrent access is serialised by SoftFileLock, DESIGN §4)",
     ],
     "trusted": ["model of PersistentCache/hash_single file branch written by hand (FileHash/Model.lean)"],
@@ -67,6 +71,14 @@ OBLIGATIONS = [
         "C09_witness_utime",
         "C09_witness_rename",
         "C09_witness_copy2",
+        "C09_witness_pair",
+        "C09_key_injective",
+        "C09_any_member_in_key",
+        "C09_unseen_key_recalculates",
+        "C09_key_max_refuted",
+        "C09_key_sum_refuted",
+        "C09_key_first_refuted",
+        "C09_key_unordered_refuted",
         "C09_multiproc",
         "C09_multiproc_fresh",
         "C09_cleanup_witness",
@@ -84,66 +96,120 @@ SAME_SIZE = {1: [2, 5], 2: [1, 5], 5: [1, 2], 6: [7], 7: [6], 3: [], 4: []}
 # generator
 
 
+FILE_IDS = list(range(len(fh.FILE_PATHS)))
+DIR_ID = len(fh.FILE_PATHS)
+
+
 def gen_history(rng, maxlen: int, mode: str = "objects") -> dict:
+    """One history.  A scenario fixes a *focus* file-set (single file, directory, header/data pair, three-member
+    set, SetOf[File] with 2-3 members, bare FileSet with 2 members); the prelude creates its members, the body
+    mixes operations on members (older and newer ones) and on other files with hash operations."""
     L = rng.randint(3, maxlen)
     fs: dict = {}
-    hashed: list = []  # keys (cls, p, t) that some hash op used
+    hashed: list = []  # keys (cls, ps, ts) that some hash op used
     ops: list = []
     nsess = 2 if maxlen <= 8 else 3
+    sc = rng.choices(["single", "dir", "pair", "triple", "setof", "fileset"], [30, 8, 22, 12, 20, 8])[0]
+    if sc == "single":
+        focus = (None, [rng.choice(FILE_IDS)])
+    elif sc == "dir":
+        focus = (2, [DIR_ID])
+    elif sc == "pair":
+        focus = (4, list(fh.PAIR))
+    elif sc == "triple":
+        focus = (5, list(fh.TRIPLE))
+    elif sc == "setof":
+        focus = (3, sorted(rng.sample(FILE_IDS, rng.choice([2, 2, 3]))))
+    else:
+        focus = (6, sorted(rng.sample(FILE_IDS, 2)))
 
-    def pick_cls(p):
-        return 2 if fh.is_dir_path(p) else (0 if rng.random() < 0.75 else 1)
+    def fileset():
+        """(cls, member ids) for a hash operation."""
+        u = rng.random()
+        if u < 0.72:
+            cls, ps = focus
+        elif u < 0.86:
+            cls, ps = None, [rng.choice([p for p in fs if p != DIR_ID] or FILE_IDS)]
+        elif u < 0.93:
+            cls, ps = 3, sorted(rng.sample(FILE_IDS, 2))
+        else:
+            cls, ps = rng.choice([(4, list(fh.PAIR)), (5, list(fh.TRIPLE)), (2, [DIR_ID])])
+        if cls is None:
+            cls = 0 if rng.random() < 0.75 else 1
+        return cls, list(ps)
 
     def hash_op():
-        ex = list(fs)
-        p = rng.choice(ex) if ex and rng.random() < 0.95 else rng.randrange(len(fh.PATHS))
-        cls = pick_cls(p)
-        if p in fs:
-            hashed.append((cls, p, fs[p][1]))
+        cls, ps = fileset()
+        if all(p in fs for p in ps):
+            hashed.append((cls, tuple(ps), tuple(fs[p][1] for p in ps)))
         if rng.random() < 0.3:
-            return {"op": "hashFresh", "cls": cls, "p": p}
-        return {"op": "hash", "s": rng.randrange(nsess), "cls": cls, "p": p}
+            return {"op": "hashFresh", "cls": cls, "ps": ps}
+        return {"op": "hash", "s": rng.randrange(nsess), "cls": cls, "ps": ps}
 
-    for _ in range(L):
+    def used_mtimes(p):
+        return [t for (_, ps, ts) in hashed for q, t in zip(ps, ts) if q == p]
+
+    def target():
+        """a path to modify: mostly a member of the focus file-set"""
+        if rng.random() < 0.75:
+            return rng.choice(focus[1])
+        ex = list(fs)
+        return rng.choice(ex) if ex and rng.random() < 0.6 else rng.randrange(len(fh.PATHS))
+
+    def write_op(p):
+        op = {"op": "write", "p": p}
+        if p in fs:
+            c0, t0 = fs[p]
+            u = rng.random()
+            used = used_mtimes(p)
+            if u < 0.40:
+                t = t0  # mtime restored / coarse clock
+                if fh.is_dir_path(p) and rng.random() < 0.7:
+                    op["natural"] = True  # nested in-place rewrite, nobody touches the directory's mtime
+            elif u < 0.55 and used:
+                t = rng.choice(used)
+            elif u < 0.72 and [q for q in focus[1] if q != p and q in fs]:
+                t = fs[rng.choice([q for q in focus[1] if q != p and q in fs])][1]  # another member's mtime (swaps)
+            else:
+                t = rng.randrange(NT)
+            v = rng.random()
+            if v < 0.2:
+                c = c0
+            elif v < 0.6 and SAME_SIZE[c0]:
+                c = rng.choice(SAME_SIZE[c0])
+            else:
+                c = rng.choice(CIDS)
+        else:
+            t, c = rng.randrange(NT), rng.choice(CIDS)
+        op.update(c=c, t=t)
+        fs[p] = (c, t)
+        return op
+
+    # prelude: the focus file-set's members come into being (distinct mtimes more often than not)
+    for p in focus[1]:
+        if len(ops) < L - 1 and rng.random() < 0.9:
+            ops.append(write_op(p))
+    while len(ops) < L:
         r = rng.random()
         ex = list(fs)
         exf = [p for p in ex if not fh.is_dir_path(p)]
-        if not ex or r < 0.30:
-            p = rng.choice(ex) if ex and rng.random() < 0.7 else rng.randrange(len(fh.PATHS))
-            op = {"op": "write", "p": p}
-            if p in fs:
-                c0, t0 = fs[p]
-                u = rng.random()
-                used = [t for (_, q, t) in hashed if q == p]
-                if u < 0.45:
-                    t = t0  # mtime restored / coarse clock
-                    if fh.is_dir_path(p) and rng.random() < 0.7:
-                        op["natural"] = True  # nested in-place rewrite, nobody touches the directory's mtime
-                elif u < 0.60 and used:
-                    t = rng.choice(used)
-                else:
-                    t = rng.randrange(NT)
-                v = rng.random()
-                if v < 0.2:
-                    c = c0
-                elif v < 0.6 and SAME_SIZE[c0]:
-                    c = rng.choice(SAME_SIZE[c0])
-                else:
-                    c = rng.choice(CIDS)
-            else:
-                t, c = rng.randrange(NT), rng.choice(CIDS)
-            op.update(c=c, t=t)
-            fs[p] = (c, t)
-        elif r < 0.40:
-            p = rng.choice(ex) if rng.random() < 0.95 else rng.randrange(len(fh.PATHS))
-            used = [t for (_, q, t) in hashed if q == p]
+        if not ex or r < 0.22:
+            op = write_op(target())
+        elif r < 0.32:
+            p = target()
+            used = used_mtimes(p)
             t = rng.choice(used) if used and rng.random() < 0.5 else rng.randrange(NT)
             op = {"op": "utime", "p": p, "t": t}
             if p in fs:
                 fs[p] = (fs[p][0], t)
-        elif r < 0.56 and exf:
-            p = rng.choice(exf) if rng.random() < 0.93 else rng.randrange(len(fh.FILE_PATHS))
-            q = rng.randrange(len(fh.FILE_PATHS))
+        elif r < 0.52 and exf:
+            # rename-over / copy2: the source is some other file (carrying its own, possibly older, mtime),
+            # the target mostly a member of the focus set
+            q = target()
+            if fh.is_dir_path(q):
+                q = rng.choice(FILE_IDS)
+            src = [p for p in exf if p != q]
+            p = rng.choice(src) if src and rng.random() < 0.93 else rng.choice(FILE_IDS)
             kind = "rename" if rng.random() < 0.5 else "copy2"
             op = {"op": kind, "p": p, "q": q}
             if p != q and p in fs:
@@ -156,9 +222,9 @@ def gen_history(rng, maxlen: int, mode: str = "objects") -> dict:
             op = {"op": "newProcess", "s": rng.randrange(nsess)}
         else:
             pool = list(dict.fromkeys(hashed))
-            vs = [list(k) for k in pool if rng.random() < 0.6]
+            vs = [[k[0], list(k[1]), list(k[2])] for k in pool if rng.random() < 0.6]
             if rng.random() < 0.15:
-                vs.append([0, rng.randrange(len(fh.PATHS)), rng.randrange(NT)])
+                vs.append([0, [rng.choice(FILE_IDS)], [rng.randrange(NT)]])
             op = {"op": "cleanUp", "victims": vs}
         ops.append(op)
     if fs and (rng.random() < 0.85 or not any(o["op"].startswith("hash") for o in ops)):
@@ -167,7 +233,8 @@ def gen_history(rng, maxlen: int, mode: str = "objects") -> dict:
 
 
 def small_alphabet() -> list:
-    """23 letters: two file paths, two contents (same size), two mtimes, one session, class File."""
+    """25 letters: two file paths, two contents (same size), two mtimes, one session; File on either path and
+    SetOf[File] on both."""
     a = []
     for p in (0, 1):
         for c in (1, 2):
@@ -177,11 +244,26 @@ def small_alphabet() -> list:
             a.append({"op": "utime", "p": p, "t": t})
         a.append({"op": "rename", "p": p, "q": 1 - p})
         a.append({"op": "copy2", "p": p, "q": 1 - p})
-        a.append({"op": "hash", "s": 0, "cls": 0, "p": p})
-        a.append({"op": "hashFresh", "cls": 0, "p": p})
+        a.append({"op": "hash", "s": 0, "cls": 0, "ps": [p]})
+        a.append({"op": "hashFresh", "cls": 0, "ps": [p]})
+    a.append({"op": "hash", "s": 0, "cls": 3, "ps": [0, 1]})
+    a.append({"op": "hashFresh", "cls": 3, "ps": [0, 1]})
     a.append({"op": "newProcess", "s": 0})
-    a.append({"op": "cleanUp", "victims": [[0, p, t] for p in (0, 1) for t in (0, 3)]})
+    vs = [[0, [p], [t]] for p in (0, 1) for t in (0, 3)] + [[3, [0, 1], [t, u]] for t in (0, 3) for u in (0, 3)]
+    a.append({"op": "cleanUp", "victims": vs})
     return a
+
+
+def pair_continuations(n: int):
+    """A two-member SetOf[File] is created (older member 0, newer member 1) and hashed; then every sequence of
+    `n` letters; then it is hashed again in the same session, in another one and through `hash_function`."""
+    a = small_alphabet() + [{"op": "write", "p": 4, "c": 5, "t": 2}, {"op": "rename", "p": 4, "q": 0}, {"op": "copy2", "p": 4, "q": 0},
+                            {"op": "copy2", "p": 4, "q": 1}, {"op": "utime", "p": 0, "t": 2}, {"op": "write", "p": 0, "c": 5, "t": 2}]
+    pre = [{"op": "write", "p": 0, "c": 1, "t": 0}, {"op": "write", "p": 1, "c": 2, "t": 3}, {"op": "write", "p": 4, "c": 3, "t": 2},
+           {"op": "hash", "s": 0, "cls": 3, "ps": [0, 1]}]
+    post = [{"op": "hash", "s": 0, "cls": 3, "ps": [0, 1]}, {"op": "hash", "s": 1, "cls": 3, "ps": [0, 1]}, {"op": "hashFresh", "cls": 3, "ps": [0, 1]}]
+    for tup in itertools.product(a, repeat=n):
+        yield {"mode": "objects", "ops": [dict(o) for o in pre + list(tup) + post]}
 
 
 def exhaustive(maxlen: int):
@@ -249,6 +331,8 @@ def judge_cases(ctx, cases: list, obs: list, use_model: bool = True):
         m = model_obs(c, a)
         for op in c["ops"]:
             ctx.count("op:" + op["op"])
+            if is_hash(op):
+                ctx.count(f"hash:{fh.CLASSES[op['cls']]}/{len(op['ps'])}-member")
         ctx.count(f"len={len(c['ops'])}")
         ctx.count("mode:" + c.get("mode", "objects"))
         ctx.count("stale-answer" if not o["spec_ok"] else "all-answers-current")
@@ -299,14 +383,14 @@ def guard_probe(runner: fh.Runner, scratch: Path) -> dict:
         f = root / "files" / "now.dat"
         f.write_bytes(b"AAAA")  # natural write, mtime = now
         m = f.lstat().st_mtime_ns
-        a1 = w.call(cmd="hash", sess=None, cls="File", path=str(f))
+        a1 = w.call(cmd="hash", sess=None, cls="File", paths=[str(f)])
         stored = len([n for n in (root / "cache").iterdir() if not n.name.endswith(".lock")])
         age_ms = (time.time_ns() - m) / 1e6
         f.write_bytes(b"BBBB")
         import os
 
         os.utime(f, ns=(m, m))  # the rewrite falls into the same clock tick
-        a2 = w.call(cmd="hash", sess=None, cls="File", path=str(f))
+        a2 = w.call(cmd="hash", sess=None, cls="File", paths=[str(f)])
         return {
             "entry_stored_for_file_modified_ms_ago": round(age_ms, 1),
             "entries_stored": stored,
@@ -354,7 +438,9 @@ def correspondence(ctx):
         # seeded random histories
         maxlen = ctx.pick(8, 12)
         b.run([gen_history(ctx.rng, maxlen) for _ in range(ctx.pick(800, 12000))])
+        b.run(list(pair_continuations(1)))
         if not ctx.quick:
+            b.run(list(pair_continuations(2)))
             b.run(list(exhaustive(3)))
         t3 = time.time()
         b.flush()
